@@ -144,16 +144,19 @@ def helgrind_keys(text):
         if not m:
             continue
         kind = "data-race" if "data race" in m.group(1) else "lock-order" if "lock order" in m.group(1) else "mutex-misuse"
-        stacks, cur = [], []
+        stacks, cur, keep = [], None, False
         for ln in b.split("\n"):
             mm = re.match(r"==\d+==\s+(?:at|by) 0x[0-9A-F]+: (\S+) \((?:in )?([^):]+)(?::(\d+))?\)", ln)
             if mm:
-                cur.append((mm.group(1), mm.group(2), mm.group(3) or "?"))
-            elif cur:
-                stacks.append(cur)
+                if cur is not None:
+                    cur.append((mm.group(1), mm.group(2), mm.group(3) or "?"))
+                continue
+            if re.search(r"Lock at 0x[0-9A-F]+ was first observed|Address 0x[0-9a-f]+ is|Block was alloc|Required order was established|followed by a later acquisition|was created|root thread", ln):
+                cur = None      # stacks that describe locks / allocation sites, not accesses
+            elif re.search(r"== (Possible data race|This conflicts with|Thread #\d+:|Thread #\d+ unlocked|Thread #\d+'s call)", ln):
                 cur = []
-        if cur:
-            stacks.append(cur)
+                stacks.append(cur)
+        stacks = [st for st in stacks if st]
 
         def inner(st):
             for fn, path, line in st:
